@@ -35,7 +35,10 @@ CONSTANTS
   Graphs,       \* sequence of [name, modules, imports, entries, injected]
   FaultKinds,   \* subset of {"none","parse-panic","print-panic","chunk-panic","load-error","start-error","cancel"}
   NOnStart,
-  GuardFinal
+  GuardFinal,
+  SmapModes,    \* subset of {"off", "plain", "nested", "nested-exclude"}: source maps off / on without input maps / on with
+                \* input (nested) maps / the same with sourcesContent excluded
+  SmapDonePaths \* the paths of a source-map worker on which it calls waitGroup.Done(): the design has all three
 
 Runtime == "<runtime>"
 
@@ -56,10 +59,13 @@ VARIABLES
   printers,     \* set of <<chunk, file>> printer goroutines running
   hashSet,      \* chunks whose isolated hash function has been set
   msgs,         \* messages of the current build
-  result1       \* messages of build 1 (kept for the export)
+  result1,      \* messages of build 1 (kept for the export)
+  smap,         \* source map mode of the context (both builds)
+  smWorkers,    \* source-map data workers (Bundle.computeDataForSourceMapsInParallel): set of <<build, file>> still running
+  smLeft        \* their wait group; every chunk generator waits on it (c.dataForSourceMaps()) before it prints
 
 vars == <<g, hashed, fault, build, phase, startLeft, visited, nextIdx, remaining, parsing, ready, received, entryNext, injNext,
-          injWaiting, panicked, cancel, cancelAt, genLeft, chunkSt, fileLeft, printers, hashSet, msgs, result1>>
+          injWaiting, panicked, cancel, cancelAt, genLeft, chunkSt, fileLeft, printers, hashSet, msgs, result1, smap, smWorkers, smLeft>>
 
 G == Graphs[g]
 Modules == G.modules
@@ -104,12 +110,18 @@ FreshScan ==
   /\ entryNext' = 1 /\ injNext' = 1 /\ injWaiting' = {}
   /\ panicked' = {} /\ cancel' = FALSE
   /\ genLeft' = 0 /\ chunkSt' = [c \in Chunks |-> "idle"] /\ fileLeft' = [c \in Chunks |-> 0]
-  /\ printers' = {} /\ hashSet' = {} /\ msgs' = {}
+  /\ printers' = {} /\ hashSet' = {} /\ msgs' = {} /\ smWorkers' = {} /\ smLeft' = 0
+
+\* the source-map workers only exist if the link phase is reached: the other fault placements are
+\* explored (and replayed) with source maps off
+SmapRelevant(f) == f.kind \in {"none", "print-panic", "chunk-panic", "chunk-panic-late"} \/ (f.kind = "cancel" /\ f.at = "link")
 
 Init ==
   /\ g \in 1..Len(Graphs)
   /\ hashed \in BOOLEAN
   /\ fault \in {x \in FaultsOf(g) : x.kind \in FaultKinds \/ (x.kind = "chunk-panic-late" /\ "chunk-panic" \in FaultKinds)}
+  /\ smap \in {m \in SmapModes : m = "off" \/ SmapRelevant(fault)}
+  /\ smWorkers = {} /\ smLeft = 0
   /\ build = 1
   /\ phase = "onstart" /\ startLeft = NOnStart
   /\ visited = [f \in Files |-> IF f = Runtime THEN 0 ELSE -1]
@@ -133,8 +145,8 @@ Visit(ms, vis, nxt, rem, par) ==
        ELSE Visit(Tail(ms), [vis EXCEPT ![m] = nxt], nxt + 1, rem + 1, par \cup {m})
 
 ScanVars == <<visited, nextIdx, remaining, parsing>>
-LinkVars == <<genLeft, chunkSt, fileLeft, printers, hashSet>>
-Fixed == <<g, hashed, fault, build, cancelAt, result1>>
+LinkVars == <<genLeft, chunkSt, fileLeft, printers, hashSet, smWorkers, smLeft>>
+Fixed == <<g, hashed, fault, build, cancelAt, result1, smap>>
 
 OnStartEnd ==
   /\ phase = "onstart" /\ startLeft > 0
@@ -226,11 +238,13 @@ Return(extra) ==
   /\ phase' = "returned" /\ build' = build + 1
   /\ msgs' = msgs \cup extra
   /\ result1' = IF build = 1 THEN msgs \cup extra ELSE result1
-  /\ UNCHANGED <<g, hashed, fault, cancelAt, startLeft, ScanVars, ready, received, entryNext, injNext, injWaiting, panicked, cancel, LinkVars>>
+  /\ UNCHANGED <<g, hashed, fault, cancelAt, smap, startLeft, ScanVars, ready, received, entryNext, injNext, injWaiting, panicked, cancel, LinkVars>>
 
 \* the second build on the same context
 StartSecond ==
   /\ phase = "returned" /\ build = 2
+  \* (the replay starts build 2 when no goroutine of build 1 is left: a worker nobody waited for may still be running)
+  /\ smWorkers = {}
   /\ FreshScan
   /\ UNCHANGED Fixed
 
@@ -250,15 +264,29 @@ ScanDone ==
           /\ chunkSt' = [c \in Chunks |-> "running"]
           \* cancel "link": the flag is set while the chunk generators run
           /\ cancel' = Has("cancel", "link")
+          \* Compile starts one source-map worker per reachable file before it links (only if source maps are on)
+          /\ smWorkers' = IF smap = "off" THEN {} ELSE {<<build, f>> : f \in received}
+          /\ smLeft' = IF smap = "off" THEN 0 ELSE Cardinality(received)
           /\ UNCHANGED <<startLeft, ScanVars, ready, received, entryNext, injNext, injWaiting, panicked, fileLeft, printers, hashSet, msgs, Fixed>>
 
 (* ------------------------------------------------------------------ link *)
 ChunkSpawn(c) ==
   /\ phase = "link" /\ chunkSt[c] = "running" /\ ~Has("chunk-panic", c)
+  /\ smLeft = 0          \* c.dataForSourceMaps(): waitGroup.Wait() on the source-map workers
   /\ chunkSt' = [chunkSt EXCEPT ![c] = "waitfiles"]
   /\ fileLeft' = [fileLeft EXCEPT ![c] = Cardinality(FilesOf(c))]
   /\ printers' = printers \cup {<<c, f>> : f \in FilesOf(c)}
-  /\ UNCHANGED <<phase, startLeft, ScanVars, ready, received, entryNext, injNext, injWaiting, panicked, cancel, genLeft, hashSet, msgs, Fixed>>
+  /\ UNCHANGED <<phase, startLeft, ScanVars, ready, received, entryNext, injNext, injWaiting, panicked, cancel, genLeft, hashSet, smWorkers, smLeft, msgs, Fixed>>
+
+\* a source-map worker ends.  Its path: the file has no input map / has one / has one and sourcesContent is
+\* excluded.  On every path it must call Done (SmapDonePaths = all three); a path that returns without Done leaves
+\* every chunk generator blocked in Wait for ever.
+SmPath(f) == IF f = Runtime \/ smap = "plain" THEN "no-map" ELSE IF smap = "nested" THEN "nested" ELSE "nested-excluded"
+SmapEnd(w) ==
+  /\ w \in smWorkers
+  /\ smWorkers' = smWorkers \ {w}
+  /\ smLeft' = IF w[1] = build /\ phase = "link" /\ SmPath(w[2]) \in SmapDonePaths THEN smLeft - 1 ELSE smLeft
+  /\ UNCHANGED <<phase, startLeft, ScanVars, ready, received, entryNext, injNext, injWaiting, panicked, cancel, genLeft, chunkSt, fileLeft, printers, hashSet, msgs, Fixed>>
 
 \* a per-file printer: done, or panics and recoverInternalError logs and calls waitGroup.Done()
 PrintEnd(c, f) ==
@@ -267,7 +295,7 @@ PrintEnd(c, f) ==
   /\ fileLeft' = [fileLeft EXCEPT ![c] = @ - 1]
   /\ IF Has("print-panic", f) THEN /\ msgs' = msgs \cup {Msg("panic-print", f)} /\ panicked' = panicked \cup {Msg("panic-print", f)}
      ELSE UNCHANGED <<msgs, panicked>>
-  /\ UNCHANGED <<phase, startLeft, ScanVars, ready, received, entryNext, injNext, injWaiting, cancel, genLeft, chunkSt, hashSet, Fixed>>
+  /\ UNCHANGED <<phase, startLeft, ScanVars, ready, received, entryNext, injNext, injWaiting, cancel, genLeft, chunkSt, hashSet, smWorkers, smLeft, Fixed>>
 
 \* the chunk generator: finishes (sets its isolated hash function), or panics before / after its printers
 ChunkEnd(c) ==
@@ -285,7 +313,7 @@ ChunkEnd(c) ==
         /\ hashSet' = hashSet \cup {c}
         /\ UNCHANGED <<msgs, panicked>>
   /\ genLeft' = genLeft - 1
-  /\ UNCHANGED <<phase, startLeft, ScanVars, ready, received, entryNext, injNext, injWaiting, cancel, fileLeft, printers, Fixed>>
+  /\ UNCHANGED <<phase, startLeft, ScanVars, ready, received, entryNext, injNext, injWaiting, cancel, fileLeft, printers, smWorkers, smLeft, Fixed>>
 
 \* generateWaitGroup.Wait() returned: final hashes of the chunks whose name contains [hash]
 Finalize ==
@@ -293,7 +321,7 @@ Finalize ==
   /\ IF GuardFinal /\ msgs # {} THEN Return({})
      ELSE IF hashed /\ \E c \in Chunks : c \notin hashSet
             THEN /\ phase' = "crashed"    \* call of a nil hash function on the goroutine that links
-                 /\ UNCHANGED <<build, startLeft, ScanVars, ready, received, entryNext, injNext, injWaiting, panicked, cancel, LinkVars, msgs, result1, g, hashed, fault, cancelAt>>
+                 /\ UNCHANGED <<build, startLeft, ScanVars, ready, received, entryNext, injNext, injWaiting, panicked, cancel, LinkVars, msgs, result1, g, hashed, fault, cancelAt, smap>>
             ELSE Return(IF msgs = {} /\ cancel THEN {Msg("error", "canceled")} ELSE {})
 
 Next ==
@@ -302,6 +330,7 @@ Next ==
   \/ CancelEarly \/ PollCancel \/ DrainDone \/ ScanDone
   \/ \E c \in Chunks : ChunkSpawn(c) \/ ChunkEnd(c) \/ (\E f \in FilesOf(c) : PrintEnd(c, f))
   \/ Finalize \/ StartSecond
+  \/ \E w \in smWorkers : SmapEnd(w)
 
 Spec == Init /\ [][Next]_vars
 FairSpec == Spec /\ WF_vars(Next)
@@ -318,6 +347,8 @@ CountersExact ==
   /\ remaining = Cardinality(parsing \cup ready)
   /\ \A c \in Chunks : fileLeft[c] = Cardinality({p \in printers : p[1] = c})
   /\ (phase = "link") => genLeft = Cardinality({c \in Chunks : chunkSt[c] \in {"running", "waitfiles"}})
+  \* the source-map wait group counts exactly the workers of this build that are still running
+  /\ (phase = "link") => smLeft = Cardinality({w \in smWorkers : w[1] = build})
 
 \* whenever a build has returned nothing of it is left running or blocked.  (At the moment build 1
 \* returns, the state is already the fresh state of build 2: checked through the history variables.)
@@ -355,8 +386,10 @@ CancelOutcome == (build >= 2 /\ fault.kind = "cancel") => result1 \in {{}, {Msg(
 \* the messages of build 1 are determined by the fault placement and the graph alone (not by the
 \* interleaving), except for cancellation, where the build may also complete
 Termination == <>((phase = "returned" /\ build = 3) \/ phase = "crashed")
+\* a worker nobody waits for (every generator panicked before its Wait) still ends
+WorkersEnd == <>[](phase = "crashed" \/ smWorkers = {})
 
 Export ==
   (build = 3 \/ phase = "crashed") =>
-     PrintT(<<"CASE", ToJson([graph |-> G.name, hashed |-> hashed, fault |-> fault, msgs |-> result1, crashed |-> (phase = "crashed")])>>)
+     PrintT(<<"CASE", ToJson([graph |-> G.name, hashed |-> hashed, smap |-> smap, fault |-> fault, msgs |-> result1, crashed |-> (phase = "crashed")])>>)
 =============================================================================
